@@ -44,6 +44,9 @@ int main(int argc, char** argv) {
       std::printf("ESC\n");
     }
     D::snap_r(*fsm_p);
+#define X(N) std::printf("FLAG %d or=%d and=%d\n", N, (int)H_CFG::template flag_or<Flag<N>>(*fsm_p), (int)H_CFG::template flag_and<Flag<N>>(*fsm_p));
+    H_FLAGS(X)
+#undef X
     std::printf("--\n");
     std::fflush(stdout);
   }
